@@ -213,7 +213,7 @@ for _n, _p in [('prepare_version', {'version': 'tuple'}), ('prepare_tag_handle',
 
 define('doc_ok', ['e'], "typeis(e, 'obj:yaml.events.DocumentStartEvent') ==> ("
        "(as_(e, 'obj:yaml.events.DocumentStartEvent').version is None or typeis(as_(e, 'obj:yaml.events.DocumentStartEvent').version, 'tuple')) and "
-       "(as_(e, 'obj:yaml.events.DocumentStartEvent').tags is None or (typeis(as_(e, 'obj:yaml.events.DocumentStartEvent').tags, 'dict') and "
+       "(as_(e, 'obj:yaml.events.DocumentStartEvent').tags is None or (typeis(as_(e, 'obj:yaml.events.DocumentStartEvent').tags, 'dict') and sortable_keys(as_(e, 'obj:yaml.events.DocumentStartEvent').tags) and "
        "forall_v(k, haskey(as_(e, 'obj:yaml.events.DocumentStartEvent').tags, k) ==> (typeis(k, 'str') and typeis(dget(as_(e, 'obj:yaml.events.DocumentStartEvent').tags, k), 'str'))))))")
 
 contract(E + 'check_empty_document', props=['C12'],
@@ -267,3 +267,17 @@ contract(E + 'expect_stream_start', props=['C05', 'C15'],
     ensures=["typeis(self.event, 'obj:yaml.events.StreamStartEvent')", "self.state == func('expect_first_document_start')", "prefix_of(old(LOG(self)), LOG(self))"],
     labels={0: 'accepts-only-stream-start', 1: 'next-is-the-first-document', 2: 'append-only'},
     modifies=['self.encoding', 'self.state'] + OUT, raises=[EERR] + ENCERR, raises_any=True)
+
+# ---- C12: a plain scalar at the root leaves the document open-ended (so that '...' is written before any directive)
+_WP_INV = ["inv_pos(self)", "old(self.root_context) ==> self.open_ended",
+           "typeis(text, 'str') and end >= 0 and start >= 0 and start <= end"]
+contract(E + 'write_plain', props=['C12', 'C15'], max_paths=6,
+    params={'text': 'str', 'split': 'bool'},
+    # plain style is only chosen for texts without line breaks (choose_scalar_style + analyze_scalar)
+    requires=["inv_pos(self)", "forall(i, 0, len(text), text[i] not in %s)" % BRK],
+    ensures=["inv_pos(self)", "old(self.root_context) ==> self.open_ended",
+             "not old(self.root_context) ==> self.open_ended == old(self.open_ended)"],
+    labels={0: 'inv_pos', 1: 'root-plain-scalar-is-open-ended', 2: 'flag-untouched-elsewhere'}, dead_loops=[1],
+    invariants={0: _WP_INV + ["end <= len(text) + 1", "breaks == False", "not old(self.root_context) ==> self.open_ended == old(self.open_ended)"],
+                1: _WP_INV + ["end <= len(text)", "not old(self.root_context) ==> self.open_ended == old(self.open_ended)"]},
+    modifies=['self.whitespace', 'self.indention', 'self.column', 'self.line', 'self.open_ended'] + OUT, raises=ENCERR, raises_any=True)
